@@ -1333,7 +1333,7 @@ func c15Gen(r *Rand, tier string) []interface{} {
 func init() {
 	register(&Property{
 		ID: "C15", Imports: "V.Lib V.C15_Model", Judge: "judge", Shard: 500,
-		Rule: "act = the same declared sites as Casketfile text through casket.Start (REAL activateHTTPS as the tls parsing callback, real MakeServers; a probe directive records the site list and aborts before listening), only configurations where no certificate is obtained at startup; redire2e includes HTTPS sites declared with a path (several per host), targets below and outside the paths; redire2e = declared TLS sites through all real stages incl. MakeServers, the resulting HTTP-port server served on a loopback listener, one raw request over TCP, raw response observed (status, Location, Connection, connection closed); net = IPNet.Contains of the four private networks on net.ParseIP; ip also exhaustive over ':'-joined token sequences; pipe cases = Casketfile text through the real parser, InspectServerBlocks, bind/tls setups, the three pure stages of activateHTTPS and MakeServers, synthesised sites probed; redir = real redirect middleware on ReadRequest-parsed requests; class/ip/split = real classifiers and stdlib functions. non-trivial: pipe with at least one TLS-enabled or managed site, redir with a response, class with a positive classification, ip/split that parse; distinct = distinct Coq case term",
+		Rule: "pipe/act cases with `set` run under non-default process settings (httpserver.Port/Host, certmagic.HTTPPort/HTTPSPort set for the run and restored), judged as CPipeS with the settings-parametrised model and the spec on effective ports, servers built by MakeServers observed as (port, has TLS config); act = the same declared sites as Casketfile text through casket.Start (REAL activateHTTPS as the tls parsing callback, real MakeServers; a probe directive records the site list and aborts before listening), only configurations where no certificate is obtained at startup; redire2e includes HTTPS sites declared with a path (several per host), targets below and outside the paths; redire2e = declared TLS sites through all real stages incl. MakeServers, the resulting HTTP-port server served on a loopback listener, one raw request over TCP, raw response observed (status, Location, Connection, connection closed); net = IPNet.Contains of the four private networks on net.ParseIP; ip also exhaustive over ':'-joined token sequences; pipe cases = Casketfile text through the real parser, InspectServerBlocks, bind/tls setups, the three pure stages of activateHTTPS and MakeServers, synthesised sites probed; redir = real redirect middleware on ReadRequest-parsed requests; class/ip/split = real classifiers and stdlib functions. non-trivial: pipe with at least one TLS-enabled or managed site, redir with a response, class with a positive classification, ip/split that parse; distinct = distinct Coq case term",
 		Gen: c15Gen,
 		Decode: func(raw json.RawMessage) (interface{}, error) {
 			in := &c15In{}
